@@ -1184,3 +1184,47 @@ def r_hook_refreshes_unconditionally(ck, P, rid):
             ck.violation(R, g.name, 'early return on %s' % own[0], '%s returns without recomputing anything when %s — a field the hook itself installs — has a certain value: state derived from the image\'s properties (here what %s computes) then survives a later change of those properties' % (g.name, own[0], ', '.join(sorted({c.callee for c in g.calls() if c.callee and not c.callee.startswith('llvm.')})[:3]) or 'the hook'), t.loc())
         else:
             ck.ok(R, '%s: %d derived fields, %d branches on them, none skips the recomputation' % (g.name, len(W), nbr))
+
+
+def r_validate_clears_dirty(ck, P, rid):
+    """T-MPT: once validate has found the image dirty, every path to its return clears the flag; otherwise every later drawing request
+    recomputes — and stores — the derived state of an image other threads are reading."""
+    R = ck.rule(rid, 'in the function that clears image_common.dirty, every path from the test that found the image dirty to a return passes through the store that clears the flag (must-pass-through), whatever kind of image it is and whether or not it has a property_changed hook', floor=1)
+    v = common.find_validate(P)
+    ck.saw(v)
+    clears = {x.bb.id for x in common.stores_field(v, 'image_common.dirty') if x.a[0][0] == 'c' and int(x.a[0][1]) == 0}
+    rets = {x.bb.id for x in v.rets()}
+    n = 0
+    for b in v.blocks:
+        t = b.term
+        if t.op != 'br' or not t.a:
+            continue
+        cc = v.v(t.a[0])
+        # the test of the flag: a comparison (or truncation) of a load of image_common.dirty
+        def reads_dirty(o, d=0):
+            x = v.v(o)
+            if x is None or d > 5:
+                return False
+            if x.op == 'load':
+                return v.last_field(v.path(x.a[0])) == 'image_common.dirty'
+            if x.op in ('icmp', 'trunc', 'zext', 'and'):
+                return any(reads_dirty(a, d + 1) for a in x.a if a and a[0] == 'v')
+            return False
+        if not reads_dirty(t.a[0]):
+            continue
+        n += 1
+        # the successor on which the flag is set: the one from which a clearing store is reachable at all
+        bad = None
+        for s in t.d['succ']:
+            r_all = v.reachable_blocks(s, avoid=())
+            if not (({s} | r_all) & clears):
+                continue                      # the "not dirty" side
+            r_avoid = {s} | v.reachable_blocks(s, avoid=clears) if s not in clears else set()
+            if r_avoid & rets:
+                bad = s
+        if bad is not None:
+            ck.violation(R, v.name, 'path that leaves the image dirty', '%s can return, after finding the image dirty and recomputing its flags, without clearing image_common.dirty: the image stays dirty for ever, and every later request - from any thread - recomputes and stores its derived fields while other threads read them' % v.name, t.loc())
+        else:
+            ck.ok(R, '%s: dirty test at %s, every path to a return clears the flag' % (v.name, t.loc()))
+    if n == 0:
+        ck.incomplete(R, '%s has no branch on image_common.dirty' % v.name)
